@@ -297,6 +297,8 @@ def _mk_funcs():
     co2 = np.array([[-1.2, 0.4], [0.3, -1.5], [1.0, 1.0]])
     reg("fourier.nufft", 5, lambda v: (sp.nufft, [_arr([3, 4], *_v(v)), co2.copy()], ()))
     reg("fourier.nufft.1d", 5, lambda v: (sp.nufft, [_arr([2, 5], *_v(v)), co1.copy()], ()))
+    reg("fourier.nufft.oversamp1", 5, lambda v: (lambda x, c: sp.nufft(x, c, oversamp=1.0, width=3), [_arr([3, 4], *_v(v)), co2.copy()], ()))
+    reg("fourier.nufft_adjoint.oversamp1", 5, lambda v: (lambda y, c: sp.nufft_adjoint(y, c, [3, 4], oversamp=1.0, width=3), [_arr([3], *_v(v)), co2.copy()], ()))
     reg("fourier.nufft_adjoint", 5, lambda v: (sp.nufft_adjoint, [_arr([3], *_v(v)), co2.copy(), [3, 4]], ()))
     reg("fourier.nufft_adjoint.batch", 5, lambda v: (sp.nufft_adjoint, [_arr([2, 4], *_v(v)), co1.copy(), [2, 5]], ()))
     reg("fourier.toeplitz_psf", 1, lambda v: (sp.fourier.toeplitz_psf, [co2.copy(), [3, 4]], ()))
@@ -503,6 +505,13 @@ def run_func(case, seed):
         if not _same_values(c1, c3):
             V("layout-invariance", "non-contiguous argument", "%s gives different values for a %s argument than for its C-contiguous copy" % (
                 name, "Fortran-ordered" if variant == 3 else "strided"))
+    # a returned array belongs to the caller: scribbling over it must not influence a later call (memoised results)
+    if isinstance(out1, np.ndarray) and out1.flags.writeable and not mutable:
+        try:
+            out1 *= -1
+            out1 += 7
+        except Exception:
+            pass
     # repeatability on fresh, equal arguments (and same RNG seed)
     fn2, args2, _ = FUNCS[name][1](variant)
     np.random.seed(seed % 2 ** 32)
@@ -622,7 +631,10 @@ def run_confhist(case, seed):
     for a in range(len(fns)):
         for b in range(len(fns)):
             try:
-                fns[a]()
+                ra = fns[a]()
+                for arr in (ra if isinstance(ra, (list, tuple)) else [ra]):
+                    if isinstance(arr, np.ndarray) and arr.flags.writeable:
+                        arr *= -1      # the caller owns what it was given back
             except Exception:
                 pass
             try:
